@@ -4,7 +4,8 @@
 \* in {no namespace, U1, U2, XHTML} under document prefixes chosen independently of the caller's map,
 \* attributes a in {no namespace, U1, U2}; every prefix map over {default, p, q} x {U1, U2, XHTML};
 \* the element forms E, *|E, |E, p|E, q|E, u|E (unmapped), *, p|*, :is(E), :not(p|E) and the
-\* attribute forms [a], [|a], [*|a], [p|a], [q|a], [u|a].
+\* attribute forms [a], [|a], [*|a], [p|a], [q|a], [u|a]; complex selectors whose non-subject compound has no type selector,
+\* and lists of type-less alternatives inside :is / :not / :has / :nth-child(of).
 EXTENDS CssDecl, TLC, Json, SequencesExt
 CONSTANTS MaxKids
 VARIABLE doc
@@ -50,7 +51,19 @@ Forms == {Cx1(<<TypeS(ns, E)>>) : ns \in {NsB, NsN, NsA, NsP(P), NsP(Q), NsP(U),
     \cup {Cx1(<<AttrS(ns)>>) : ns \in {NsB, NsN, NsA, NsP(P), NsP(Q), NsP(U)}}
     \cup {Cx1(<<AttrU(ns)>>) : ns \in {NsB, NsA, NsP(P)}} \cup {Cx1(<<TypeS(NsP(P), <<69>>)>>)}
     \cup {Cx1(<<TypeS(NsP(P), E), AttrS(NsP(P))>>), Cx1(<<[k |-> "first-of-type"]>>), Cx1(<<AttrS(NsP(P)), AttrS(NsP(Q))>>)}
-PoolSet == {[sel |-> <<f>>, ns |-> m] : f \in Forms, m \in Maps}
+\* several compounds: a top-level compound WITHOUT a type selector is an implied universal subject to the default namespace wherever it
+\* stands in the complex selector (not only as the subject); inside pseudo-class arguments no alternative of a list gets one
+Cx2(c1, cb, c2) == [cs |-> <<c1, c2>>, cb |-> <<cb>>]
+IsL(a, b) == [k |-> "is", args |-> <<Cx1(a), Cx1(b)>>]
+NotL(a, b) == [k |-> "not", args |-> <<Cx1(a), Cx1(b)>>]
+Forms2 == {Cx2(<<[k |-> "first-of-type"]>>, ">", <<TypeS(NsA, E)>>), Cx2(<<[k |-> "root"]>>, " ", <<TypeS(NsB, E)>>),
+           Cx2(<<TypeS(NsA, R)>>, ">", <<AttrS(NsB)>>), Cx2(<<TypeS(NsB, Star)>>, ">", <<TypeS(NsA, Star)>>),
+           Cx2(<<AttrS(NsB)>>, "~", <<TypeS(NsA, Star)>>), Cx2(<<AttrS(NsA)>>, "+", <<AttrS(NsA)>>),
+           Cx1(<<TypeS(NsA, Star), IsL(<<AttrS(NsB)>>, <<AttrU(NsB)>>)>>), Cx1(<<TypeS(NsA, Star), NotL(<<AttrS(NsB)>>, <<AttrU(NsB)>>)>>),
+           Cx1(<<TypeS(NsA, Star), [k |-> "nth", a |-> 0, b |-> 1, last |-> FALSE, oftype |-> FALSE, of |-> <<Cx1(<<AttrS(NsA)>>), Cx1(<<AttrU(NsA)>>)>>]>>),
+           Cx1(<<TypeS(NsA, Star), [k |-> "has", args |-> <<[comb |-> ">", cx |-> Cx1(<<AttrS(NsA)>>)], [comb |-> " ", cx |-> Cx1(<<AttrU(NsA)>>)]>>]>>),
+           Cx1(<<[k |-> "nth", a |-> 0, b |-> 2, last |-> FALSE, oftype |-> FALSE, of |-> <<>>]>>)}
+PoolSet == {[sel |-> <<f>>, ns |-> m] : f \in Forms \cup Forms2, m \in Maps}
 Pool == SetToSeq(PoolSet)
 ASSUME PrintT(ToJson([pool |-> Pool]))
 
